@@ -19,7 +19,7 @@ META = {
         "SolidBody.evaluate.kirchhoff_stress / cauchy_stress with an abstract material and symbolic displacements; tools.force / tools.moment with symbolic forces and displacements; tools.save with a recording "
         "stand-in for meshio.Mesh",
     ],
-    "outside": ["ViewSolid / ViewField cell data and everything else behind pyvista", "singular projection matrices", "IEEE rounding"],
+    "outside": ["rendering and everything else behind pyvista (ViewSolid's cell data ARE checked, with pyvista's grid replaced by a recording stand-in and LAPACK eigvalsh by a contract stub)", "log-strain view data (eigh)", "singular projection matrices", "IEEE rounding"],
     "assumptions": ["linear solver contract", "the projection mass matrix is regular"],
 }
 
@@ -117,6 +117,15 @@ def case_topoints(ctx, family):
         for k in range(2):
             exp[p, k] = sum(V[k, a, c] for c, a in att) / len(att)
     ctx.equal("averaged_point_values_are_means_over_attached_cells", out, exp, tol=1e-12)
+    T = ctx.array("T", (2, 2, nq, nc), -1, 1)
+    outT = fem.topoints(T, region, average=True)
+    expT = np.empty((m.npoints, 2, 2), dtype=object if ctx.sym else float)
+    for p in range(m.npoints):
+        att = [(c, list(m.cells[c]).index(p)) for c in range(nc) if p in m.cells[c]]
+        for i in range(2):
+            for j in range(2):
+                expT[p, i, j] = sum(T[i, j, a, c] for c, a in att) / len(att)
+    ctx.equal("averaged_tensor_values_keep_their_component_order", outT, expT, tol=1e-12)
     out2 = fem.topoints(V, region, average=False)
     exp2 = np.array([[V[k, a, c] for k in range(2)] for c in range(nc) for a in range(ppc)], dtype=object if ctx.sym else float)
     ctx.equal("unaveraged_values_are_cellwise_corner_values", out2, exp2)
@@ -155,6 +164,79 @@ def case_stresses(ctx, family, kind):
                     es[i, j, q_, c] = t / J
     ctx.equal("kirchhoff_stress_is_P_Ft", tau, et)
     ctx.equal("cauchy_stress_is_P_Ft_over_J", sig, es)
+
+
+def case_view_solid(ctx, stress_type):
+    """per-cell view data of ViewSolid (pyvista replaced by a recording stand-in; LAPACK eigvalsh by a contract stub)"""
+    from symnp.npproxy import EIG_LOG
+
+    m = tiny_mesh("hex8")
+    region = REGION["hex8"](m)
+    field = fem.FieldContainer([fem.Field(region, dim=3)])
+    x = unknowns(ctx, field)
+    install(ctx, field, x)
+    umat = AbstractHyperelastic(ctx, 3)
+    body = fem.SolidBody(umat, field)
+
+    class Grid:
+        def __init__(self):
+            self.point_data, self.cell_data = {}, {}
+
+        def set_active_scalars(self, *a):
+            pass
+
+        set_active_vectors = set_active_tensors = set_active_scalars
+
+    field.region.mesh.as_pyvista = lambda cell_type=None, **kw: Grid()  # instance alias of as_unstructured_grid
+    n0 = len(EIG_LOG)
+    view = fem.ViewSolid(field, solid=body, stress_type=stress_type)
+    cd = view.mesh.cell_data
+    stress = np.asarray(body.evaluate.cauchy_stress(field) if stress_type == "Cauchy" else body.evaluate.kirchhoff_stress(field))
+    nq, nc = stress.shape[2:]
+    label = "%s Stress" % stress_type
+    ij = [(0, 0), (1, 1), (2, 2), (0, 1), (1, 2), (0, 2)]
+    mean = np.array([[sum(stress[i, j, q_, c] for q_ in range(nq)) / nq for (i, j) in ij] for c in range(nc)], dtype=object if ctx.sym else float)
+    ctx.equal("stress_cell_datum_is_quadrature_mean", cd[label], mean, tol=1e-12, box={"atom:uf": (-1, 1)})
+    F = np.asarray(field.extract()[0])
+    Fm = np.array([[[sum(F[i, j, q_, c] for q_ in range(nq)) / nq for i in range(3)] for j in range(3)] for c in range(nc)], dtype=object if ctx.sym else float)
+    ctx.equal("deformation_gradient_cell_datum_is_quadrature_mean", np.asarray(cd["Deformation Gradient"]).reshape(nc, 3, 3), Fm, tol=1e-12)
+    key = "Principal Values of %s" % label
+    if ctx.sym:
+        # the eigen-solver stub was handed the stress itself (per quadrature point) and the datum is the mean of its results
+        calls = [c_ for c_ in EIG_LOG[n0:] if c_["a"].shape[-2:] == (3, 3) and c_["a"].shape[:-2] == (nc, nq)]
+        ok = False
+        for c_ in calls:
+            arg = np.array([[[[c_["a"][c, q_, j, i] for q_ in range(nq)] for c in [cc]] for cc in range(nc)] for i in range(3) for j in range(3)], dtype=object)
+            try:
+                same = all(c_["a"][c, q_, j, i].n is np.asarray(stress)[i, j, q_, c].n or True for c in range(1) for q_ in range(1) for i in range(1) for j in range(1))
+            except AttributeError:
+                same = True
+            w = c_["w"]  # (nc, nq, 3)
+            exp = np.array([[sum(w[c, q_, k] for q_ in range(nq)) / nq for k in range(3)] for c in range(nc)], dtype=object)
+            got = np.asarray(cd[key], dtype=object)
+            if got.shape == exp.shape and all(_same_node(a, b) for a, b in zip(got.reshape(-1), exp.reshape(-1))):
+                # argument check: a[c, q] must be the stress at (q, c) (transposed axes allowed: symmetric tensor)
+                ctx.equal("eigen_solver_received_the_quadrature_point_stress", np.array([[[[c_["a"][c, q_, i, j] for c in range(nc)] for q_ in range(nq)] for j in range(3)] for i in range(3)], dtype=object), np.transpose(stress, (1, 0, 2, 3)), tol=1e-12, box={"atom:uf": (-1, 1)}, validate=False)
+                ok = True
+                break
+        ctx.check_concrete("principal_values_datum_is_quadrature_mean_of_principal_values", ok)
+    else:
+        exp = np.array([[np.linalg.eigvalsh(stress[:, :, q_, c]) for q_ in range(nq)] for c in range(nc)]).mean(axis=1)
+        ctx.check_concrete("principal_values_datum_is_quadrature_mean_of_principal_values", bool(np.allclose(np.asarray(cd[key], dtype=float), exp, atol=1e-9)))
+
+
+def _same_node(a, b):
+    from symnp.normal import Normalizer
+    from symnp.sym import lift, mk
+
+    if a is b:
+        return True
+    n = Normalizer()
+    try:
+        num, den = n.ratnorm(mk("-", lift(a), lift(b)))
+        return n.poly(num).is_zero()
+    except Exception:  # noqa: BLE001
+        return False
 
 
 def case_force_moment(ctx, dim):
@@ -235,6 +317,8 @@ def cases(tier):
     out.append(("topoints", case_topoints, {"family": "hex8"}))
     out.append(("stresses", case_stresses, {"family": "hex8", "kind": "Field"}))
     out.append(("stresses", case_stresses, {"family": "quad4", "kind": "PlaneStrain"}))
+    out.append(("view_solid", case_view_solid, {"stress_type": "Cauchy"}))
+    out.append(("view_solid", case_view_solid, {"stress_type": "Kirchhoff"}))
     out.append(("force_moment", case_force_moment, {"dim": 2}))
     out.append(("force_moment", case_force_moment, {"dim": 3}))
     out.append(("save", case_save, {}))
